@@ -361,3 +361,79 @@ theorem endScope_is_the_fold (st : EState) (top : List (String × VarEntry)) (re
   exact ⟨_, rfl, rfl, rfl⟩
 
 end BlochVerif.Props.C17
+
+/-! ## whole-evaluator form: counts are never lost and the table stays keyed -/
+namespace BlochVerif.Props.C17
+open BlochVerif BlochVerif.Eval BlochVerif.Parse
+
+/-- the table has one row per (variable, outcome) -/
+def Keyed (st : EState) : Prop := TrNodup st.tracked
+
+/-- no count goes down -/
+def CountsGrow (s s' : EState) : Prop := ∀ k, trTotal s.tracked k ≤ trTotal s'.tracked k
+
+/-- a primitive that does not touch the table -/
+macro "trk_same" defs:ident* : tactic => `(tactic|
+  (intro st hi a st' hr; unfold $defs:ident* at hr; prim_cases hr <;> (try dsimp only) <;> (repeat' split) <;>
+    exact ⟨hi, fun _ => Nat.le_refl _⟩))
+
+theorem trk_endScope : Hoare Keyed CountsGrow endScope := by
+  intro st hi a st' hr
+  cases he : st.env with
+  | nil =>
+    unfold endScope at hr
+    rw [run_modify] at hr
+    cases hr
+    simp only [he]
+    exact ⟨hi, fun _ => Nat.le_refl _⟩
+  | cons top rest =>
+    obtain ⟨st2, h1, _, h3⟩ := endScope_is_the_fold st top rest he
+    have e : st2 = st' := by rw [h1] at hr; cases hr; rfl
+    subst e
+    refine ⟨?_, fun k => ?_⟩
+    · show TrNodup st2.tracked
+      rw [h3]
+      exact (scope_exit_records_each_tracked_variable_once st.lastMeasurement top st.tracked hi "").1
+    · show trTotal st.tracked k ≤ trTotal st2.tracked k
+      rw [h3, (scope_exit_records_each_tracked_variable_once st.lastMeasurement top st.tracked hi k).2]
+      omega
+
+theorem tracked_prims : PrimsHoare Keyed CountsGrow where
+  refl := fun _ _ => Nat.le_refl _
+  trans := fun _ _ _ h1 h2 k => Nat.le_trans (h1 k) (h2 k)
+  lookup := fun n => by (trk_same lookup)
+  assignVar := fun n v => by (trk_same assignVar)
+  declareVar := fun n e => by (trk_same declareVar)
+  beginScope := by (trk_same beginScope)
+  endScope := trk_endScope
+  enterFrame := by (trk_same enterFrame)
+  leaveFrame := fun d => by (trk_same leaveFrame)
+  getHasReturn := by (trk_same getHasReturn)
+  setHasReturn := fun b => by (trk_same setHasReturn)
+  clearReturn := by (trk_same clearReturn)
+  getReturnValue := by (trk_same getReturnValue)
+  setReturnValue := fun v => by (trk_same setReturnValue)
+  lookupFnM := fun n => by (trk_same lookupFnM)
+  echoLine := fun l => by (trk_same echoLine)
+  allocateTrackedQubit := fun n => by (trk_same allocateTrackedQubit simReset nextDraw unmarkMeasured)
+  ensureQubitActive := fun i p => by (trk_same ensureQubitActive ensureQubitExists)
+  resetQubit := fun q p => by (trk_same resetQubit ensureQubitExists simReset nextDraw unmarkMeasured)
+  simGate := fun op => by (trk_same simGate)
+  simCx := fun c t => by (trk_same simCx)
+  measureQubit := fun q p => by
+    (trk_same measureQubit ensureQubitActive ensureQubitExists simMeasure nextDraw markMeasured setLastMeasurement)
+
+/-- **Whatever a program does** — any function, any body, any fuel — the tracked table keeps one row per (variable,
+outcome) and no count ever goes down: what a scope exit has recorded survives every later statement, call and scope exit of
+the shot, so the per-shot table the aggregate is built from holds every record that was made (induction principle of the
+evaluator model; the only primitive that touches the table is `endScope`, which is the fold of
+`scope_exit_records_each_tracked_variable_once`). -/
+theorem a_program_never_loses_a_tracked_count (fuel : Nat) (fn : FuncDecl) (args : List Value) (st st' : EState)
+    (v : Value) (hi : TrNodup st.tracked) (h : (call fuel fn args).run st = .ok (v, st')) :
+    TrNodup st'.tracked ∧ ∀ k, trTotal st.tracked k ≤ trTotal st'.tracked k :=
+  hoare_call tracked_prims fuel fn args st hi v st' h
+
+/-- the empty table a shot starts with is keyed -/
+example : TrNodup ([] : List (String × String × Nat)) := by simp [TrNodup]
+
+end BlochVerif.Props.C17
